@@ -2,29 +2,31 @@
 (***************************************************************************)
 (* C16: figure-only documents.  One Pick step per dimension, then one        *)
 (* action per emitted part of _encode_figure_only: EmitBreak, EmitTitle,      *)
-(* EmitPict(i), EmitFoot, EmitSrc, NextPage.  Deviation flag RestateGeometry *)
+(* EmitSubline, EmitPict(i), EmitFoot, EmitSrc, NextPage.  Deviation flag RestateGeometry *)
 (* (TRUE = the page break between figures restates paper size and margins).  *)
 (***************************************************************************)
 EXTENDS Naturals, Integers, Sequences, FiniteSets, TLC, Json, FigProps
-CONSTANTS NSet, LenSet, PlaceSet, BoolSet, KindSet, RestateGeometry
+CONSTANTS NSet, LenSet, PlaceSet, BoolSet, KindSet, RestateGeometry,
+          SublineFollowsTitle     \* deviation flag: TRUE = the subline is shown on the pages page_title selects (FALSE: first page only)
 VARIABLES cfg, d, phase, p, part, out
 vars == <<cfg, d, phase, p, part, out>>
-Cfg0 == [n |-> 1, wl |-> 1, hl |-> 1, ptitle |-> "all", pfoot |-> "last", psrc |-> "last", title |-> FALSE, foot |-> FALSE, src |-> FALSE, kinds |-> <<>>]
+Cfg0 == [n |-> 1, wl |-> 1, hl |-> 1, ptitle |-> "all", pfoot |-> "last", psrc |-> "last", title |-> FALSE, subline |-> FALSE, foot |-> FALSE, src |-> FALSE, kinds |-> <<>>]
 Init == cfg = Cfg0 /\ d = 1 /\ phase = "pick" /\ p = 1 /\ part = "break" /\ out = <<>>
-Pick == /\ phase = "pick" /\ d <= 10
+Pick == /\ phase = "pick" /\ d <= 11
         /\ CASE d = 1 -> \E v \in NSet : cfg' = [cfg EXCEPT !.n = v] /\ d' = 2
              [] d = 2 -> \E v \in LenSet : cfg' = [cfg EXCEPT !.wl = v] /\ d' = 3
              [] d = 3 -> \E v \in LenSet : cfg' = [cfg EXCEPT !.hl = v] /\ d' = 4
              [] d = 4 -> \E v \in BoolSet : cfg' = [cfg EXCEPT !.title = v] /\ d' = 5
-             [] d = 5 -> \E v \in (IF cfg.title THEN PlaceSet ELSE {"all"}) : cfg' = [cfg EXCEPT !.ptitle = v] /\ d' = 6
-             [] d = 6 -> \E v \in BoolSet : cfg' = [cfg EXCEPT !.foot = v] /\ d' = 7
-             [] d = 7 -> \E v \in (IF cfg.foot THEN PlaceSet ELSE {"last"}) : cfg' = [cfg EXCEPT !.pfoot = v] /\ d' = 8
-             [] d = 8 -> \E v \in BoolSet : cfg' = [cfg EXCEPT !.src = v] /\ d' = 9
-             [] d = 9 -> \E v \in (IF cfg.src THEN PlaceSet ELSE {"last"}) : cfg' = [cfg EXCEPT !.psrc = v] /\ d' = 10
-             [] d = 10 -> IF Len(cfg.kinds) >= cfg.n THEN cfg' = cfg /\ d' = 11
-                          ELSE \E v \in KindSet : cfg' = [cfg EXCEPT !.kinds = Append(@, v)] /\ d' = 10
+             [] d = 5 -> \E v \in BoolSet : cfg' = [cfg EXCEPT !.subline = v] /\ d' = 6
+             [] d = 6 -> \E v \in (IF cfg.title \/ cfg.subline THEN PlaceSet ELSE {"all"}) : cfg' = [cfg EXCEPT !.ptitle = v] /\ d' = 7
+             [] d = 7 -> \E v \in BoolSet : cfg' = [cfg EXCEPT !.foot = v] /\ d' = 8
+             [] d = 8 -> \E v \in (IF cfg.foot THEN PlaceSet ELSE {"last"}) : cfg' = [cfg EXCEPT !.pfoot = v] /\ d' = 9
+             [] d = 9 -> \E v \in BoolSet : cfg' = [cfg EXCEPT !.src = v] /\ d' = 10
+             [] d = 10 -> \E v \in (IF cfg.src THEN PlaceSet ELSE {"last"}) : cfg' = [cfg EXCEPT !.psrc = v] /\ d' = 11
+             [] d = 11 -> IF Len(cfg.kinds) >= cfg.n THEN cfg' = cfg /\ d' = 12
+                          ELSE \E v \in KindSet : cfg' = [cfg EXCEPT !.kinds = Append(@, v)] /\ d' = 11
         /\ UNCHANGED <<phase, p, part, out>>
-Start == phase = "pick" /\ d = 11 /\ phase' = "emit" /\ UNCHANGED <<cfg, d, p, part, out>>
+Start == phase = "pick" /\ d = 12 /\ phase' = "emit" /\ UNCHANGED <<cfg, d, p, part, out>>
 \* abstract sizes: figure i has pixel size (10 i, 10 i + 1); width list entry j is 100 j twips, height 200 j
 Ev(k, i) == [k |-> k, p |-> p, i |-> i, fmt |-> IF k = "pict" THEN cfg.kinds[i] ELSE "",
              picw |-> IF k = "pict" THEN 10 * i ELSE 0, pich |-> IF k = "pict" THEN 10 * i + 1 ELSE 0,
@@ -35,7 +37,10 @@ EmitBreak == /\ phase = "emit" /\ part = "break"
              /\ out' = (IF p > 1 THEN Append(out, Ev("break", 0)) ELSE out) /\ Advance("title") /\ UNCHANGED <<cfg, d, phase, p>>
 EmitTitle == /\ phase = "emit" /\ part = "title"
              /\ out' = (IF cfg.title /\ Show(cfg.ptitle, p, cfg.n) THEN Append(out, Ev("title", 0)) ELSE out)
-             /\ Advance("pict") /\ UNCHANGED <<cfg, d, phase, p>>
+             /\ Advance("subline") /\ UNCHANGED <<cfg, d, phase, p>>
+EmitSubline == /\ phase = "emit" /\ part = "subline"
+               /\ out' = (IF cfg.subline /\ (IF SublineFollowsTitle THEN Show(cfg.ptitle, p, cfg.n) ELSE p = 1) THEN Append(out, Ev("subline", 0)) ELSE out)
+               /\ Advance("pict") /\ UNCHANGED <<cfg, d, phase, p>>
 EmitPict == /\ phase = "emit" /\ part = "pict" /\ out' = Append(out, Ev("pict", p)) /\ Advance("foot") /\ UNCHANGED <<cfg, d, phase, p>>
 EmitFoot == /\ phase = "emit" /\ part = "foot"
             /\ out' = (IF cfg.foot /\ Show(cfg.pfoot, p, cfg.n) THEN Append(out, Ev("foot", 0)) ELSE out)
@@ -46,7 +51,7 @@ EmitSrc == /\ phase = "emit" /\ part = "src"
 NextPage == /\ phase = "emit" /\ part = "next"
             /\ IF p < cfg.n THEN p' = p + 1 /\ part' = "break" /\ phase' = phase ELSE phase' = "done" /\ UNCHANGED <<p, part>>
             /\ UNCHANGED <<cfg, d, out>>
-Next == Pick \/ Start \/ EmitBreak \/ EmitTitle \/ EmitPict \/ EmitFoot \/ EmitSrc \/ NextPage
+Next == Pick \/ Start \/ EmitBreak \/ EmitTitle \/ EmitSubline \/ EmitPict \/ EmitFoot \/ EmitSrc \/ NextPage
 Spec == Init /\ [][Next]_vars
 MC == cfg @@ [files |-> [i \in 1..cfg.n |-> [fmt |-> cfg.kinds[i], w |-> 10 * i, h |-> 10 * i + 1, len |-> i, sha |-> "s", bytes |-> <<>>]],
               fw |-> [j \in 1..cfg.wl |-> 100 * j], fh |-> [j \in 1..cfg.hl |-> 200 * j], geom |-> <<1>>]
@@ -58,5 +63,6 @@ M_Goal == All(C16_Goal)
 M_Bytes == All(C16_Bytes)
 M_Captions == All(C16_Captions)
 M_FigBreak == All(C06_FigBreak)
+M_FigSubline == All(C06_FigSubline)
 Emit == phase = "done" => PrintT(ToJson([cfg |-> cfg, out |-> [j \in 1..Len(out) |-> [k |-> out[j].k, p |-> out[j].p, i |-> out[j].i]]]))
 =============================================================================
